@@ -173,3 +173,51 @@ for _combo in itertools.product((False, True), repeat=5):
             inline_get_cache_key=_ik)(MarkerSrc)
     except Exception as _exc:
         OPT_ALIAS_ERRORS[_combo] = _exc
+
+
+# family 6: a cache key function with a guard clause (two return statements).  The
+# optimizer may refuse to inline such a key (ValueError at decoration time); if it accepts
+# the class, constants of different type must still be kept apart.
+def _const_name(c):
+    return prim.Variable(f"{type(c).__name__}_{c!r}".replace(".", "p").replace("-", "m"))
+
+
+class PlainConstMarker(IdentityMapper):
+    def map_variable(self, expr):
+        return RENAME.get(expr.name, expr)
+
+    def map_constant(self, expr):
+        return _const_name(expr)
+
+
+class GuardKeySrc(CachedIdentityMapper):
+    def map_variable(self, expr):
+        return RENAME.get(expr.name, expr)
+
+    def map_constant(self, expr):
+        return _const_name(expr)
+
+    def get_cache_key(self, expr):
+        if not isinstance(expr, prim.Expression):
+            return (type(expr), expr)
+        return expr
+
+
+OPT_GUARD = {}
+OPT_GUARD_REFUSED = {}
+OPT_GUARD_ERRORS = {}
+for _combo in itertools.product((False, True), repeat=5):
+    _da, _dk, _ir, _ic, _ik = _combo
+    if _ic and not (_da and _dk):
+        continue
+    try:
+        OPT_GUARD[_combo] = optimize_mapper(
+            drop_args=_da, drop_kwargs=_dk, inline_rec=_ir, inline_cache=_ic,
+            inline_get_cache_key=_ik)(GuardKeySrc)
+    except ValueError as _exc:
+        if _ik:
+            OPT_GUARD_REFUSED[_combo] = _exc     # declining to inline this key is fine
+        else:
+            OPT_GUARD_ERRORS[_combo] = _exc
+    except Exception as _exc:
+        OPT_GUARD_ERRORS[_combo] = _exc
